@@ -321,6 +321,13 @@ def logic_names_rule(fx, res, enum, tbl):
             if not (isinstance(rv, dict) and rv.get('k') == 'ref' and rv.get('d') == 'global'):
                 continue
             idx = n['a'][0]
+            if idx.get('k') != 'cast' or 'opensmt::Logic_t' not in ((idx.get('e') or {}).get('t') or ''):
+                # the subscript may be a local initialised once from the cast (auto const i = static_cast<int>(logic);)
+                names = {x.get('n') for x in walk(idx) if x.get('k') == 'ref' and x.get('d') not in ('global', 'enum', 'param')}
+                inits = [d for d in fwalk(f) if d.get('k') == 'decl' and d.get('n') in names and isinstance(d.get('init'), dict)]
+                casts = [x for d in inits for x in walk(d['init']) if x.get('k') == 'cast' and isinstance(x.get('e'), dict) and 'opensmt::Logic_t' in (x['e'].get('t') or '')]
+                if len(inits) == 1 and casts:
+                    idx = casts[0]
             if not (idx.get('k') == 'cast' and isinstance(idx.get('e'), dict) and 'opensmt::Logic_t' in (idx['e'].get('t') or '')):
                 continue
             g = fx.G.get(rv['n'])
